@@ -7,8 +7,10 @@ Three layers, each judged by an independent positional parser written here with 
   B. one-line functions `return <literal expression>` decorated with the real @fp.fpy, evaluated under
      fp.REAL (must be the exact value / signed zero) and, as `return fp.round(<literal>)`, under narrow
      contexts (must be the real ctx.round of the exact value)           (oracle + model correspondence)
-The front end re-reads the text of a decimal literal from the parsed source (it used to take the
-binary64 value Python had rounded it to); Python's float() appears here only to label a failure.
+  C. the two CPython facts the front-end model rests on: float(<literal>) is the correctly rounded
+     binary64 (model: Ctx.round of IEEE(11,64)), str(float) is the shortest round-trip decimal.
+Known finding F5 (not repaired): a decimal float token reaches the parser as a Python float.
+F24, F25, F26 are repaired: any other violation is reported (finding None).
 """
 from __future__ import annotations
 import importlib.util, os, re, shutil, struct, sys, tempfile
@@ -19,10 +21,12 @@ from fpy2.ast.fpyast import Decnum, Hexnum, Integer, Rational, Digits, Neg
 
 PROP = 'C06'
 
-# cause of a property failure (diagnostic label; none of them is a listed finding any more:
-# F5, F24, F25, F26 are repaired, so any violation is reported)
+# cause of a property failure -> id in known_findings.json (None: not a listed finding).
+# 'float-path' is decided by the criterion in cause_of(): the observed value is exactly what the
+# trip through Python float gives (int(f) if f is integral else Fraction(str(f)), f = float(token))
+# and differs from the exact value.  F24/F25/F26 are repaired: their causes are labels only.
 CAUSE_TO_FINDING = {
-    'float-path': None,            # decimal literal evaluated through Python float + str(float)
+    'float-path': 'F5',            # decimal literal evaluated through Python float + str(float)
     'neg-fold-double-negation': None,
     'neg-zero-argument-rejected': None,
     'hex-empty-integer-part': None,
@@ -191,6 +195,16 @@ def exact_decimal_of(fr: Fraction) -> str:
     n = fr.numerator * 5 ** k
     s = str(n).rjust(k + 1, '0')
     return (s[:-k] + '.' + s[-k:]) if k else s + '.0'
+
+def rand_double(R):
+    """a positive finite binary64 value as a Fraction, biased to edges"""
+    t = R.random()
+    if t < 0.15: c, e = R.getrandbits(R.randint(1, 52)) | 1, -1074                 # subnormal
+    elif t < 0.3: c, e = 1 << 52, R.randint(-1074, 971)                            # power of two
+    elif t < 0.4: c, e = (1 << 53) - 1, R.randint(-1074, 971)
+    elif t < 0.8: c, e = (1 << 52) | R.getrandbits(52), R.randint(-80, 20)
+    else: c, e = (1 << 52) | R.getrandbits(52), R.randint(-1074, 971)
+    return Fraction(c) * Fraction(2) ** e
 
 def gen_float_token(R):
     """(text, class) of a Python float literal"""
@@ -484,6 +498,7 @@ def violation(rep, what, e_or_text, cause, extra):
 def _run(rep, R, quick, tmp):
     n_util = 8000 if quick else 60000
     n_front = 6000 if quick else 40000
+    n_repr = 3000 if quick else 50000
     evals = 0
 
     # ---------------- A. util functions -------------------------------------------------------
@@ -556,6 +571,39 @@ def _run(rep, R, quick, tmp):
             rep.broke('correspondence', f'C06.util.{kind}', f'line={line[:300]} text={text[:120]!r} impl={gs[:200]} model={mod[:200]}')
         rep.distinct.add(('util', kind, text))
         if evals % 400 == 0: rep.sample({'layer': 'util', 'kind': kind, 'text': text[:80], 'impl': gs[:80], 'model': mod[:80]})
+
+    # ---------------- C. float(<literal>) and str(float) --------------------------------------
+    toks = []
+    for _ in range(n_repr):
+        toks.append(gen_float_token(R)[0])
+    toks += ['0.1', '1e23', '9007199254740993.0', '5e-324', '2.4703282292062327e-324', '2.4703282292062328e-324', '1.7976931348623157e308',
+             '1.7976931348623158e308', '1.7976931348623159e308', '1e309', '2.2250738585072011e-308', '2.2250738585072014e-308', '0.5', '1e16', '1e-5', '0.0001', '123456789012345680.0']
+    lines = [f'litf64 {S(t)}' for t in toks]
+    doubles = []
+    model = run_driver(lines)
+    for t, mod in zip(toks, model):
+        evals += 1
+        f = float(t.replace('_', ''))
+        if f == float('inf'): want = 'ok float inf'
+        else:
+            want = 'ok float ' + canon_rf(False, *_exp_c(f))
+            if f > 0: doubles.append(f)
+        rep.count('f64:' + ('inf' if f == float('inf') else 'zero' if f == 0 else 'subnormal' if f < 2.2250738585072014e-308 else 'normal'))
+        if mod != want:
+            rep.broke('correspondence', 'C06.float-parse', f'token={t} python={want} model={mod}')
+    for _ in range(n_repr):
+        d = rand_double(R); doubles.append(float(d))
+    doubles += [5e-324, 1e-323, 2.2250738585072014e-308, 2.225073858507201e-308, 1.7976931348623157e308, 0.1, 0.3, 1 / 3, 2.0 ** -44, 2.0 ** -1022, 9.5367431640625e-07, 1e22, 1e21, 1e16, 123456.0, 9007199254740993.0, 1e-5, 0.0001, 1.5e300, 5e-5]
+    lines = []
+    for f in doubles:
+        e_, c = _exp_c(f); lines.append(f'litrepr {c} {e_}')
+    model = run_driver(lines)
+    for f, mod in zip(doubles, model):
+        evals += 1
+        rep.count('repr:' + ('exp-form' if 'e' in repr(f) else 'fixed-form') + (':int' if f.is_integer() else ''))
+        if mod != 'ok ' + str(f):
+            rep.broke('correspondence', 'C06.float-repr', f'double={f.hex()} python={str(f)} model={mod}')
+        rep.distinct.add(('repr', f))
 
     # ---------------- B. the front end --------------------------------------------------------
     exprs = []
@@ -688,13 +736,24 @@ def _run(rep, R, quick, tmp):
         'Fraction(p,q) with |p|<=10^40 and q=0; B front end: one-line `return <expr>` functions through the real @fp.fpy under fp.REAL, and `return fp.round(<expr>)` under 2 of 7 narrow contexts; '
         'expr = float tokens (classes short, long 18-60 digits, integers >= 2^53 as floats, exponents +-400, exact expansions of doubles, midpoints between doubles and a hair off, '
         'zero shapes, 15-18 digits; with `_` separators and e/E), int tokens (dec/hex/oct/bin up to 60 digits), hexfloat strings (1-30 hex digits, exponents +-1100), '
-        'rational(p,q), digits(m,e,b), each under -, +, --, -+, +-; distinct = distinct spellings')
+        'rational(p,q), digits(m,e,b), each under -, +, --, -+, +-; C: float(<token>) bits and str(double) for tokens and random doubles (subnormals, powers of two, all-ones) vs the model; '
+        'distinct = distinct spellings / doubles')
     rep.assumptions += [
         'the spelling\'s value is computed by an independent positional parser (harness/c06.py, Fraction arithmetic); Python float() is used only to classify a failure as F5',
         'grammar of decnum/hexnum strings = the language of the two regular expressions in fpy2/utils/fractions.py (re-implemented by hand in the oracle)',
         '`return <literal>` is not rounded by the context (FPy constants are exact reals); "rounded once" is observed through fp.round(<literal>)',
-        'documented limits of the implementation, not exercised as failures: exponents of decimal literals with more than 6 significant digits are a parse error; digit groups longer than 4300 digits hit CPython\'s int(str) limit',
+        'CPython facts modelled and checked each run: float(token) is correctly rounded (RNE) binary64; str(float) is the shortest round-trip decimal, nearest to the value',
+        'a violation is tagged F5 only if the observed value is exactly int(f) (f integral) or Fraction(str(f)) (otherwise) for f = float(token), composed through the rest of the expression, and differs from the exact value',
     ]
+
+
+def _exp_c(f: float):
+    """(exp, c) with f = c * 2^exp exactly, f >= 0 finite"""
+    if f == 0: return 0, 0
+    b = struct.unpack('<Q', struct.pack('<d', f))[0]
+    eb = (b >> 52) & 0x7ff; m = b & ((1 << 52) - 1)
+    if eb == 0: return -1074, m
+    return eb - 1075, m | (1 << 52)
 
 
 def replay(rep, data):
